@@ -319,4 +319,274 @@ theorem inexact_counterexample :
   decide
 
 
+/-! ## 5. Collection from the locks and the proposer / validator-set / burn split -/
+
+theorem DEC_MIN_le_zero : DEC_MIN ≤ 0 := by decide
+
+theorem dsub_of_range {a b : Int} (h0 : 0 ≤ a - b) (h1 : a - b ≤ DEC_MAX) : dsub a b = some (a - b) := by
+  have := DEC_MIN_le_zero
+  unfold dsub inDec
+  rw [if_pos]
+  simp only [decide_eq_true_eq]
+  omega
+
+theorem dadd_of_range {a b : Int} (h0 : 0 ≤ a + b) (h1 : a + b ≤ DEC_MAX) : dadd a b = some (a + b) := by
+  have := DEC_MIN_le_zero
+  unfold dadd inDec
+  rw [if_pos]
+  simp only [decide_eq_true_eq]
+  omega
+
+/-- what a lock can contribute: contingent locks only when the transaction succeeded -/
+def eligible (success : Bool) : List (Nat × Int × Bool) → Int
+  | [] => 0
+  | l :: ls => (if l.2.2 && !success then 0 else l.2.1) + eligible success ls
+
+/-- every payment is taken from the vault that locked it and lies between 0 and the locked amount
+(the difference is refunded to that vault) -/
+def PayBounded : List (Nat × Int) → List (Nat × Int × Bool) → Prop
+  | [], [] => True
+  | p :: ps, l :: ls => p.1 = l.1 ∧ 0 ≤ p.2 ∧ p.2 ≤ l.2.1 ∧ PayBounded ps ls
+  | _, _ => False
+
+theorem eligible_nonneg (success : Bool) (ls : List (Nat × Int × Bool)) (h : ∀ l ∈ ls, 0 ≤ l.2.1) :
+    0 ≤ eligible success ls := by
+  induction ls with
+  | nil => simp [eligible]
+  | cons l ls ih =>
+    have h1 := h l List.mem_cons_self
+    have h2 := ih (fun x hx => h x (List.mem_cons_of_mem _ hx))
+    simp only [eligible]
+    split <;> omega
+
+/-- **The collection loop**: for every lock list (non-negative amounts) and every requirement it
+never panics, each vault pays `min(locked, still required)` (contingent locks only on success), the
+payments add up to `required − remaining`, and `remaining = max 0 (required − Σ eligible locks)`. -/
+theorem takeLoop_spec (success : Bool) : ∀ (ls : List (Nat × Int × Bool)) (req : Int), 0 ≤ req → req ≤ DEC_MAX →
+    (∀ l ∈ ls, 0 ≤ l.2.1 ∧ l.2.1 ≤ DEC_MAX) →
+    ∃ ps rem, takeLoop success req ls = some (ps, rem) ∧ rem = max 0 (req - eligible success ls) ∧
+      sumPayments ps = req - rem ∧ PayBounded ps ls := by
+  intro ls
+  induction ls with
+  | nil =>
+    intro req h0 _ _
+    exact ⟨[], req, rfl, by simp [eligible]; omega, by simp [sumPayments], trivial⟩
+  | cons l ls ih =>
+    intro req h0 h1 hl
+    obtain ⟨v, a, c⟩ := l
+    have ha := hl (v, a, c) List.mem_cons_self
+    simp only at ha
+    have hrest : ∀ l ∈ ls, 0 ≤ l.2.1 ∧ l.2.1 ≤ DEC_MAX := fun x hx => hl x (List.mem_cons_of_mem _ hx)
+    have hE := eligible_nonneg success ls (fun x hx => (hrest x hx).1)
+    -- the amount taken from this lock
+    generalize hamt : (if c then (if success then min a req else 0) else min a req) = amount
+    have hb : 0 ≤ amount ∧ amount ≤ a ∧ amount ≤ req ∧
+        amount = min (if c && !success then 0 else a) req := by
+      cases c <;> cases success <;> simp at hamt ⊢ <;> omega
+    have hone : takeOne success req (v, a, c) = some (amount, req - amount) := by
+      unfold takeOne
+      simp only [hamt]
+      rw [if_neg (by omega), dsub_of_range (by omega) (by omega), dsub_of_range (by omega) (by omega)]
+    obtain ⟨ps, rem, hps, hrem, hsum, hpb⟩ := ih (req - amount) (by omega) (by omega) hrest
+    refine ⟨(v, amount) :: ps, rem, ?_, ?_, ?_, ?_⟩
+    · simp only [takeLoop, hone, hps]
+    · rw [hrem]; simp only [eligible]
+      obtain ⟨_, _, _, h4⟩ := hb
+      rw [h4]
+      split <;> omega
+    · simp only [sumPayments, hsum]; omega
+    · exact ⟨rfl, hb.1, hb.2.1, hpb⟩
+
+theorem ncLocked_le_eligible (success : Bool) (ls : List (Nat × Int × Bool)) (h : ∀ l ∈ ls, 0 ≤ l.2.1) :
+    ncLocked ls ≤ eligible success ls := by
+  induction ls with
+  | nil => simp [ncLocked, eligible]
+  | cons l ls ih =>
+    have h1 := h l List.mem_cons_self
+    have h2 := ih (fun x hx => h x (List.mem_cons_of_mem _ hx))
+    obtain ⟨v, a, c⟩ := l
+    simp only [ncLocked, eligible] at h1 ⊢
+    cases c <;> cases success <;> simp <;> omega
+
+theorem ncLocked_reverse (ls : List (Nat × Int × Bool)) : ncLocked ls.reverse = ncLocked ls := by
+  induction ls with
+  | nil => rfl
+  | cons l ls ih => rw [List.reverse_cons, ncLocked_append, ih]; simp only [ncLocked]; ring
+
+/-- share of a non-negative amount: two floors never exceed the whole when the percentages add up to ≤ 100 -/
+theorem floor_shares (t : Int) (a b : Nat) (ht : 0 ≤ t) (hab : a + b ≤ 100) :
+    0 ≤ (t * (10000000000000000 * (a : Int))) / ONE ∧ 0 ≤ (t * (10000000000000000 * (b : Int))) / ONE ∧
+    (t * (10000000000000000 * (a : Int))) / ONE + (t * (10000000000000000 * (b : Int))) / ONE ≤ t := by
+  have ha : (0 : Int) ≤ a := Int.natCast_nonneg a
+  have hb : (0 : Int) ≤ b := Int.natCast_nonneg b
+  have hab' : (a : Int) + b ≤ 100 := by exact_mod_cast hab
+  have hx : 0 ≤ t * (10000000000000000 * (a : Int)) := by positivity
+  have hy : 0 ≤ t * (10000000000000000 * (b : Int)) := by positivity
+  refine ⟨Int.ediv_nonneg hx (le_of_lt ONE_pos), Int.ediv_nonneg hy (le_of_lt ONE_pos), ?_⟩
+  have e1 := Int.ediv_mul_le (t * (10000000000000000 * (a : Int))) ONE_ne
+  have e2 := Int.ediv_mul_le (t * (10000000000000000 * (b : Int))) ONE_ne
+  have hsum : t * (10000000000000000 * (a : Int)) + t * (10000000000000000 * (b : Int)) ≤ t * ONE := by
+    have : t * (10000000000000000 * ((a : Int) + b)) ≤ t * (10000000000000000 * 100) :=
+      Int.mul_le_mul_of_nonneg_left (by omega) ht
+    simp only [ONE]; linarith
+  have := ONE_pos
+  nlinarith
+
+theorem bind_some {α β : Type} {o : Option α} {f : α → Option β} {y : β} (h : o.bind f = some y) :
+    ∃ a, o = some a ∧ f a = some y := by
+  cases o with
+  | none => cases h
+  | some a => exact ⟨a, rfl, h⟩
+
+theorem shareAmount_spec (s : Summary) (pt pf : Nat) (x nf : Int) (ht : 0 ≤ s.tipCost) (hnf0 : 0 ≤ nf)
+    (hnf : s.networkFees = some nf) (h : shareAmount s pt pf = some x) :
+    x = (s.tipCost * (10000000000000000 * (pt : Int))) / ONE + (nf * (10000000000000000 * (pf : Int))) / ONE := by
+  unfold shareAmount at h
+  obtain ⟨ft, hft, h1⟩ := bind_some h
+  obtain ⟨ff, hff, h2⟩ := bind_some h1
+  obtain ⟨nf', hnf', h3⟩ := bind_some h2
+  obtain ⟨a, ha, h4⟩ := bind_some h3
+  obtain ⟨b, hb, h5⟩ := bind_some h4
+  rw [hnf] at hnf'
+  simp only [Option.some.injEq] at hnf'
+  subst hnf'
+  have hft := dmulNat_some hft
+  have hff := dmulNat_some hff
+  have hpt : (0 : Int) ≤ pt := Int.natCast_nonneg pt
+  have hpf : (0 : Int) ≤ pf := Int.natCast_nonneg pf
+  have ft0 : 0 ≤ ft := by rw [hft]; exact Int.mul_nonneg (by decide) hpt
+  have ff0 : 0 ≤ ff := by rw [hff]; exact Int.mul_nonneg (by decide) hpf
+  have ha := dmul_some_nonneg ht ft0 ha
+  have hb := dmul_some_nonneg hnf0 ff0 hb
+  have hx := dadd_some h5
+  rw [hx, ha, hb, hft, hff]
+/-- **split_exact**: whenever the three amounts are computed, proposer + validator set + burn is
+exactly tips + network fees, and for share percentages adding up to at most 100 % each of the
+three is non-negative. -/
+theorem split_exact (s : Summary) (sh : Shares) (p v b nf : Int)
+    (ht : 0 ≤ s.tipCost) (hnf0 : 0 ≤ nf) (hnf : s.networkFees = some nf)
+    (hp : s.toProposer sh = some p) (hv : s.toValidators sh = some v) (hb : s.toBurn sh = some b)
+    (h1 : sh.tipsProposer + sh.tipsValidators ≤ 100) (h2 : sh.feesProposer + sh.feesValidators ≤ 100) :
+    p + v + b = s.tipCost + nf ∧ 0 ≤ p ∧ 0 ≤ v ∧ 0 ≤ b := by
+  have ep := shareAmount_spec s _ _ p nf ht hnf0 hnf hp
+  have ev := shareAmount_spec s _ _ v nf ht hnf0 hnf hv
+  have hbe : b = s.tipCost + nf - p - v := by
+    unfold Summary.toBurn at hb
+    obtain ⟨nf', e1, g1⟩ := bind_some hb
+    obtain ⟨p', e2, g2⟩ := bind_some g1
+    obtain ⟨v', e3, g3⟩ := bind_some g2
+    obtain ⟨t, e4, g4⟩ := bind_some g3
+    obtain ⟨u, e5, g5⟩ := bind_some g4
+    rw [hnf] at e1; rw [hp] at e2; rw [hv] at e3
+    simp only [Option.some.injEq] at e1 e2 e3
+    subst e1 e2 e3
+    rw [dsub_some g5, dsub_some e5, dadd_some e4]
+  obtain ⟨a1, a2, a3⟩ := floor_shares s.tipCost _ _ ht h1
+  obtain ⟨b1, b2, b3⟩ := floor_shares nf _ _ hnf0 h2
+  refine ⟨by omega, by omega, by omega, by omega⟩
+
+/-- the compiled share percentages satisfy the side conditions of `split_exact` -/
+theorem protocol_shares_at_most_100 :
+    TIPS_PROPOSER_SHARE_PERCENTAGE + TIPS_VALIDATOR_SET_SHARE_PERCENTAGE ≤ 100 ∧
+    NETWORK_FEES_PROPOSER_SHARE_PERCENTAGE + NETWORK_FEES_VALIDATOR_SET_SHARE_PERCENTAGE ≤ 100 := by decide
+
+/-- **collected_equals_total_cost** (the property, on the model): for every reachable reserve that is
+eligible for commit (loan repaid) and whose unit prices satisfy the exactness side condition, for both
+outcomes (success / failure), `finalize_fees_for_commit` passes all three sanity assertions and
+* the XRD taken from the locking vaults plus the free credit used equals the reported total cost,
+* every vault pays between 0 and what it locked (the rest is refunded to it),
+* proposer + validator set + burn + royalties = total cost, each share non-negative.
+Hypotheses `hp hv hb`: the three share computations do not overflow `Decimal` (they are `unwrap`s in
+the code: "no chance to overflow considering current costing parameters"). -/
+theorem collected_equals_total_cost (r : Reserve) (s : Summary) (sh : Shares) (success : Bool) (total p v b : Int)
+    (h : Inv r) (hrep : r.owed = 0)
+    (hx : Exact r.cp.execPrice r.tip) (hy : Exact r.cp.finPrice r.tip)
+    (hrange : ∀ l ∈ r.locked, l.2.1 ≤ DEC_MAX)
+    (hf : finalize r = some s) (ht : s.totalCost = some total)
+    (hp : s.toProposer sh = some p) (hv : s.toValidators sh = some v) (hb : s.toBurn sh = some b)
+    (h1 : sh.tipsProposer + sh.tipsValidators ≤ 100) (h2 : sh.feesProposer + sh.feesValidators ≤ 100) :
+    ∃ d, finalizeFees s sh r.freeCredit success = .ok d ∧
+      d.collected = total ∧ sumPayments d.payments + d.fromFreeCredit = total ∧
+      0 ≤ d.fromFreeCredit ∧ d.fromFreeCredit ≤ r.freeCredit ∧
+      PayBounded d.payments s.locked.reverse ∧
+      d.toProposer + d.toValidators + d.toBurn + s.royaltyCost = total ∧
+      0 ≤ d.toProposer ∧ 0 ≤ d.toValidators ∧ 0 ≤ d.toBurn := by
+  obtain ⟨f1, f2, f3, f4, f5, f6, f7, -⟩ := finalize_spec r s h hf
+  have hq := proportion_nonneg r.tip
+  have ec0 : 0 ≤ s.execCost := by rw [f1]; exact Int.mul_nonneg h.prices.1 (Int.natCast_nonneg _)
+  have fc0 : 0 ≤ s.finCost := by rw [f2]; exact Int.mul_nonneg h.prices.2.1 (Int.natCast_nonneg _)
+  have tc0 : 0 ≤ s.tipCost := by
+    rw [f3]
+    have a := Int.ediv_nonneg (Int.mul_nonneg ec0 hq) (le_of_lt ONE_pos)
+    have b := Int.ediv_nonneg (Int.mul_nonneg fc0 hq) (le_of_lt ONE_pos)
+    omega
+  have st0 : 0 ≤ s.storageCost := by rw [f4]; exact h.sto
+  have ro0 : 0 ≤ s.royaltyCost := by rw [f5]; exact h.roy.2
+  have htot := totalCost_some s total ht
+  -- total ≤ DEC_MAX because the last checked_add succeeded
+  have htmax : total ≤ DEC_MAX := by
+    unfold Summary.totalCost at ht
+    simp only [daddAll] at ht
+    split at ht
+    · split at ht
+      · split at ht
+        · split at ht
+          · rename_i d hd
+            cases ht
+            unfold dadd inDec at hd
+            split at hd
+            · rename_i hin; simp only [decide_eq_true_eq] at hin; cases hd; exact hin.2
+            · cases hd
+          · cases ht
+        · cases ht
+      · cases ht
+    · cases ht
+  have hcover := repaid_reserve_covers_total_cost r s total h hrep hx hy hf ht
+  have hlocks : ∀ l ∈ s.locked.reverse, 0 ≤ l.2.1 ∧ l.2.1 ≤ DEC_MAX := by
+    intro l hl
+    rw [f7] at hl
+    have hl' := List.mem_reverse.mp hl
+    exact ⟨h.locks l hl', hrange l hl'⟩
+  obtain ⟨ps, rem, hps, hrem, hsum, hpb⟩ := takeLoop_spec success s.locked.reverse total (by omega) htmax hlocks
+  have hel : ncLocked r.locked ≤ eligible success s.locked.reverse := by
+    have := ncLocked_le_eligible success s.locked.reverse (fun l hl => (hlocks l hl).1)
+    rw [f7, ncLocked_reverse] at this
+    rw [f7]; exact this
+  have hfree0 := h.prices.2.2.2.2.2
+  -- network fees
+  obtain ⟨nf, hnf⟩ : ∃ nf, s.networkFees = some nf := by
+    unfold Summary.toBurn at hb
+    obtain ⟨nf, e1, -⟩ := bind_some hb
+    exact ⟨nf, e1⟩
+  have hnfe := networkFees_some s nf hnf
+  have hnf0 : 0 ≤ nf := by omega
+  obtain ⟨hs1, hs2, hs3, hs4⟩ := split_exact s sh p v b nf tc0 hnf0 hnf hp hv hb h1 h2
+  -- free credit part
+  generalize hff : (if r.freeCredit > 0 then min r.freeCredit rem else 0) = fromFree
+  have hrem0 : 0 ≤ rem := by rw [hrem]; omega
+  have hfrom : 0 ≤ fromFree ∧ fromFree ≤ r.freeCredit ∧ fromFree ≤ rem ∧ rem - fromFree = 0 := by
+    rw [← hff]
+    split
+    · rename_i hpos
+      refine ⟨by omega, by omega, by omega, ?_⟩
+      rw [hrem]; omega
+    · rename_i hnpos
+      have : r.freeCredit = 0 := by omega
+      refine ⟨le_refl _, by omega, hrem0, ?_⟩
+      rw [hrem]; omega
+  refine ⟨⟨ps, fromFree, sumPayments ps + fromFree, p, v, b⟩, ?_, ?_, ?_, hfrom.1, hfrom.2.1, hpb, ?_, hs2, hs3, hs4⟩
+  · unfold finalizeFees
+    simp only [ht, hps, hff]
+    rw [dsub_of_range (by omega) (by omega)]
+    simp only [hp, hv, hb]
+    rw [if_neg (by rw [f6, hrep]; simp), if_neg (by simp; omega)]
+    rw [dsub_of_range (by omega) (by omega), dadd_of_range (by omega) (by omega)]
+    simp only
+    rw [dadd_of_range (by omega) (by omega)]
+    simp only
+    rw [if_pos (by omega)]
+  · simp only; omega
+  · simp only; omega
+  · simp only; omega
+
 end Radix.Fee
